@@ -127,6 +127,7 @@ var forceTransparent = map[string]string{
 	"(*am/config.Coordinator).notifySubscribers": "C17.7 reads Reload as: LoadFile, store, call every subscriber",
 	"(*am/silence.Silences).Maintenance$2":       "C11.3 reads Maintenance with the run wrapper in place: the maintenance function is called on every tick and at shutdown",
 	"(*am/nflog.Log).Maintenance$2":              "C11.3, as for silences",
+	"(am/silence.matcherIndex).get":              "C02.8 reads the match filter as: look the silence's compiled matchers up in the store's index, evaluate them",
 }
 
 // isNewFunc: the function (or, for a literal, the literal itself) is not part of the reference tree
